@@ -120,6 +120,18 @@ def m_float_nan_inf(case: dict, xd: Any, what: str) -> bool:
     return False
 
 
+def m_negative_count(case: dict, xd: Any, what: str) -> bool:
+    """D26: a negative parameter of a length / item-count / key-count predicate is emitted as it is; the
+    metaschema requires a non-negative integer there"""
+    if "valid Draft 2020-12 schema" not in what or "is less than the minimum of 0" not in what:
+        return False
+    for d in walk(vdesc(case)):
+        if d.get("k") in ("MinLength", "MaxLength", "ExactLength", "MinItems", "MaxItems", "ExactItemCount", "MinKeys",
+                          "MaxKeys") and isinstance(d.get("n"), int) and d["n"] < 0:
+            return True
+    return False
+
+
 def explained_by(tag: str) -> Callable[[dict, Any, str], bool]:
     """C11: the stream has established that the verdicts agree once the schema is read with the repair(s)
     named in the tag (D13: NotBlank pattern = "has a non-whitespace character"; D14: oneOf as anyOf; D15: user
@@ -137,6 +149,7 @@ MATCHERS: Dict[str, Callable[[dict, dict, str], bool]] = {
     "explained_by_D15": explained_by("D15"),
     "explained_by_D25": explained_by("D25"),
     "float_nan_inf_in_schema": m_float_nan_inf,
+    "negative_count_in_schema": m_negative_count,
     "container_pred_on_payload": m_container_pred_on_payload,
     "special_decimal": m_special_decimal,
     "naive_aware": m_naive_aware,
